@@ -368,6 +368,32 @@ theorem handle_body_group_is_new (body : List Node) (c : Nat) (g : Nat)
   · exact Or.inr h0
   · left; omega
 
+theorem handlers_chain_in_order' (hs₁ hs₂ : List Handler) (k : K) :
+    runHandlers (hs₁ ++ hs₂) k = runHandlers hs₁ (runHandlers hs₂ k) := by
+  induction hs₁ with
+  | nil => simp [runHandlers]
+  | cons h hs ih => simp [runHandlers, ih]
+
+/-- `consolidateRoutes` is invisible to routing: merging two adjacent matcher-less, group-less,
+    non-terminal routes into one route with the handlers of both changes no chain. -/
+theorem consolidate_preserves_behaviour : ∀ (rs : List Route) (k : K), runRoutes (consolidate rs) k = runRoutes rs k
+  | [], k => rfl
+  | rt :: rs, k => by
+    have ih := consolidate_preserves_behaviour rs k
+    have hc : consolidate (rt :: rs) = consolidateStep rt (consolidate rs) := by simp [consolidate]
+    rw [hc]
+    unfold consolidateStep
+    split
+    · rename_i hs hs' rest heq
+      have ih' : runRoutes (Route.mk 0 [] hs' false :: rest) k = runRoutes rs k := by rw [← heq]; exact ih
+      funext r t
+      simp only [runRoutes] at ih' ⊢
+      rw [← ih']
+      simp only [runRoute, anyMatch, List.isEmpty_nil, if_true, groupDone, markGroup, bne_self_eq_false,
+        Bool.false_and, Bool.false_eq_true, if_false]
+      rw [handlers_chain_in_order']
+    · simp only [runRoutes, ih]
+
 /-! ### `handle` blocks: kernel-checked instances (the general statement is checked by the oracle) -/
 
 /-- `handle /a/b { handle /a/b { respond 201 }  handle { respond 202 }  respond 203 }
